@@ -74,7 +74,10 @@ func Schema(s *types.Schema, errs *[]error) parse.Func {
 						parse.Exact(")")),
 					parse.SeqWS(
 						SQLName(&col).
-							Action(func() { s.Columns = append(s.Columns, types.SchemaColumn{Name: col}) }),
+							Action(func() {
+								s.Columns = append(s.Columns, types.SchemaColumn{Name: col})
+								coltype = ""
+							}),
 						parse.Optional(ColumnType(&coltype)).Action(func() {
 							s.Columns[len(s.Columns)-1].DefaultType =
 								strings.ToLower(coltype)
